@@ -61,7 +61,7 @@ def drive(ctx, args):
     """generate_testcase(outcome with one unexpected line L) → LineParser over the generated lines"""
     prog = ctx.program
     line_bytes, escaper, cram = args
-    cmd = [SInt(ord(c), "char") for c in "cmd"]
+    cmd = list(ctx.notes.get("expression") or [SInt(ord(c), "char") for c in "cmd"])
     diff_line = Agg("DiffLine", "UnexpectedLines", [VecBuf([Agg("tuple", None, [mk_int(0, "usize"), VecBuf(list(line_bytes.items), "u8")])])])
     diff = mk_struct("Diff", lines=VecBuf([diff_line]), count_matched=mk_int(0, "usize"), count_unmatched=mk_int(0, "usize"),
                      count_output_lines=mk_int(1, "usize"))
@@ -147,8 +147,10 @@ def h_generated(max_u, mode, cram):
             return Agg("tuple", None, [SBool(False), Str([SInt(ord(c), "char") for c in "%d test cases instead of 1" % len(tests)])])
         t = tests[0]
         se = as_str(field_of(t, "shell_expression")).chars
-        if len(se) != 3 or not all(c.concrete and c.v == ord(x) for c, x in zip(se, "cmd")):
+        want_se = list(ctx.notes.get("expression") or [SInt(ord(c), "char") for c in "cmd"])
+        if len(se) != len(want_se) or z_and([char_eq(x, y) for x, y in zip(se, want_se)]) is False:
             return Agg("tuple", None, [SBool(False), Str([SInt(ord(c), "char") for c in "shell expression changed"])])
+        same_expression = z_and([char_eq(x, y) for x, y in zip(se, want_se)])
         if field_of(t, "exit_code").variant != "None":
             return Agg("tuple", None, [SBool(False), Str([SInt(ord(c), "char") for c in "output line read as exit code"])])
         exps = as_items(field_of(t, "expectations"))
@@ -158,7 +160,9 @@ def h_generated(max_u, mode, cram):
         if e.fields[0].v or e.fields[1].v:
             return Agg("tuple", None, [SBool(False), Str([SInt(ord(c), "char") for c in "expectation carries a quantifier"])])
         m = rule_matches(ctx, e.fields[2], args[0])
-        return Agg("tuple", None, [m, Str([SInt(ord(c), "char") for c in "expectation does not match the line"])])
+        if same_expression is not True:
+            m = sbool(z_and([m.v if m.concrete else m.z(), same_expression]))
+        return Agg("tuple", None, [m, Str([SInt(ord(c), "char") for c in "expectation does not match the line / shell expression changed"])])
 
     def post2(ctx, args, kind, value):
         if kind != "return":
@@ -210,6 +214,56 @@ def h_generated(max_u, mode, cram):
                          % (max_u, ALPHA, SUFFIXES, mode, "Cram" if cram else "Markdown"))
     h.models_cls = GenModels
     return h
+
+
+EXPRESSION_LINES = ["", "·", "· ", " ·"]       # continuation lines of a multi-line shell expression (· = a symbolic letter)
+
+
+def h_generated_expression(mode, cram, max_cont):
+    """`create` / `update` of a test whose shell expression has several lines: the `$ ` / `> ` lines written for it parse back to the same
+    expression — also with empty lines, lines that end or start with a blank, and a trailing empty line"""
+    base = h_generated(0, mode, cram)
+
+    def mk(shape):
+        def setup(ctx):
+            expr = [SInt(ord("c"), "char")]
+            for j, tpl in enumerate(shape):
+                expr.append(SInt(10, "char"))
+                for ch in tpl:
+                    if ch == "·":
+                        v = ctx.sym_char("e%d" % j, 1)
+                        ctx.add(z3.Or(v.z() == ord("a"), v.z() == ord("b")))
+                        expr.append(v)
+                    else:
+                        expr.append(SInt(ord(ch), "char"))
+            ctx.notes["expression"] = expr
+            line = [SInt(b, "u8") for b in b"ox\n"]
+            ctx.notes["line"] = line
+            ctx.notes["line_chars"] = [SInt(ord(c), "char") for c in "ox"]
+            return [Slice(line, "u8"), Agg("Escaper", mode, []), SBool(cram)]
+        return setup
+    inputs = [("expression = c + %s" % list(shape), mk(shape)) for n in range(1, max_cont + 1) for shape in itertools.product(EXPRESSION_LINES, repeat=n)]
+    h = e2.Harness("generated_test_keeps_multiline_expression_%s_%s" % ("cram" if cram else "markdown", mode.lower()), base.func, inputs, base.post, native=None, judge=None,
+                   describe="the `$ ` / `> ` lines written for a shell expression of several lines parse back to exactly that expression (and the test still "
+                            "matches its output line)",
+                   bound="expressions `c` + 1..%d further lines from %s (· = a symbolic letter in {a, b}); one output line; %s escaping; %s line-parser mode"
+                         % (max_cont, EXPRESSION_LINES, mode, "Cram" if cram else "Markdown"))
+    h.models_cls = GenModels
+    return h
+
+
+def replay_generated_expression(rep, h, res, mode, cram):
+    for model, r in res.raw_witnesses[:4]:
+        expr = "".join(chr(e2.model_int(model, c)) for c in r.ctx.notes["expression"])
+        nk, nv = NAT.call("generate_and_validate", [list(b"ox\n"), mode.lower(), "cram" if cram else "markdown", [], expr])
+        if nk != "return" or nv.get("passes") is not True:
+            rep.violation("generated-test-fails:%s:multiline-expression" % ("cram" if cram else "markdown"),
+                          "the %s test generated (%s escaping) for the shell expression %r and the output b'ox\\n' does not parse back to that expression / "
+                          "does not pass: %s" % ("cram" if cram else "markdown", mode, expr, nv),
+                          {"kind": "eval", "fn": "generate_and_validate", "args": [list(b"ox\n"), mode.lower(), "cram" if cram else "markdown", [], expr],
+                           "native": [nk, nv], "harness": h.name})
+        else:
+            rep.mismatches.append("%s: solver witness %r did not reproduce natively: %s" % (h.name, expr, nv))
 
 
 def h_generated_multi(mode, cram):
@@ -548,6 +602,12 @@ def run(pid, tier):
                 else:
                     rep.mismatches.append("%s: solver witness %r / %r did not reproduce natively: %s" % (hm.name, out, existing, nv))
             e2.record(rep, hm, resm)
+    # shell expressions of several lines
+    for cram in (False, True):
+        hq = h_generated_expression("Unicode", cram, 2 if q else 3)
+        resq = e2.run_with_raw(prog, hq, max_witnesses=4)
+        replay_generated_expression(rep, hq, resq, "Unicode", cram)
+        e2.record(rep, hq, resq)
     # a test case that failed on its exit code: rewritten from the recorded output of the validated stream
     for cram in (False, True):
         for mode in ("Unicode", "Ascii") if not q else ("Unicode",):
